@@ -239,6 +239,11 @@ pub fn env_for(world: &World, base_url: &str) -> Vec<(String, Option<String>)> {
             Some(format!("{base_url}{}", e.ai_base_path)),
         ),
         ("BLOCKWATCH_LUA_MODE".into(), e.lua_mode.clone()),
+        ("OPENAI_API_KEY".into(), e.ambient_openai_env.then(|| "sk-some-other-tools-key".to_string())),
+        ("OPENAI_ADMIN_KEY".into(), e.ambient_openai_env.then(|| "sk-admin-of-another-tool".to_string())),
+        ("OPENAI_BASE_URL".into(), e.ambient_openai_env.then(|| "http://other-tool.invalid/v9".to_string())),
+        ("OPENAI_ORG_ID".into(), e.ambient_openai_env.then(|| "org-elsewhere".to_string())),
+        ("OPENAI_PROJECT_ID".into(), e.ambient_openai_env.then(|| "proj-elsewhere".to_string())),
     ]
 }
 
